@@ -20,7 +20,7 @@ def fingerprints():
     d = {}
     for rel, quals in (('coba/pipes/sources.py', ['HttpSource._byte_it_', 'DelimSource.read', 'DiskSource.read']), ('coba/pipes/sinks.py', ['DiskSink.write', 'DiskSink._get_batch', 'DiskSink._unfinished']),
                        ('coba/pipes/readers.py', ['CsvReader.filter', 'LibsvmReader.filter', 'ManikReader.filter', 'ArffReader.filter', 'ArffAttrReader._split', 'ArffAttrReader._encoder', 'ArffDataReader._dense',
-                                                  'ArffDataReader._sparse', 'ArffLineReader._dense', 'ArffLineReader._dense_simple', 'ArffLineReader._dense_advanced', 'ArffLineReader._sparse'])):
+                                                  'ArffDataReader._sparse', 'ArffLineReader._dense', 'ArffLineReader._dense_simple', 'ArffLineReader._dense_advanced', 'ArffLineReader._sparse', 'ArffLineReader._sparse_quoted'])):
         d.update(fingerprint_defs(rel, quals))
     return d
 
